@@ -313,6 +313,7 @@ func Apply(ctx context.Context, rc *regclient.RegClient, rSrc ref.Ref, opts ...O
 					return nil, err
 				}
 				err = rdr.Close()
+				rdr = nil // closed, the deferred cleanup must not close it again
 				if err != nil {
 					return nil, err
 				}
